@@ -86,3 +86,162 @@ Theorem inline_element_tags :
 Proof. exact AnnBalance.inline_element_tags. Qed.
 Print Assumptions inline_element_tags.
 
+
+(* ---------- character level (Proofs/AnnCorollaries.v): every (character, tag) pair of the output is accounted for - document characters carry exactly the annotations of their enclosing nodes (per-kind table own_ann_tbl), independent of width/options/position; renderer-made characters carry exactly the enclosing block's; lines route = string route ---------- *)
+From H2T Require Import Base Tagged Wrap Sub Css Dom Render Api CssParse Proofs.CssTotal Proofs.WrapInv Proofs.RenderWidth Proofs.Conserve Proofs.Footnotes Proofs.AnnBalance Proofs.RenderConserve Proofs.OptionRel Proofs.Compose Proofs.RenderTotal Proofs.FragStream Proofs.SimRel Proofs.Prune Proofs.AnnCorollaries.
+Theorem render_node_chars :
+  forall (R : chr -> tag -> Prop) (d : deco) (mw : N) (n : rnode) (st st' : rstate) 
+         (s : subr) (rest : list subr),
+       (forall (c : chr) (t t' : tag), tag_eqb t' t = true -> R c t -> R c t') ->
+       R (spacel L_pad) [] ->
+       (forall (c : chr) (t : tag), tree_ct d (ann_stack s) (0 <? pre_depth s) (Inherit.pe_of n) c t -> R c t) ->
+       render_node d mw n st = Ok st' ->
+       stack st = s :: rest ->
+       sub_R R s -> exists s' : subr, stack st' = s' :: rest /\ meta_of s' = meta_of s /\ sub_R R s'.
+Proof. exact AnnCorollaries.render_node_chars. Qed.
+Print Assumptions render_node_chars.
+
+Theorem render_tree_chars :
+  forall (d : deco) (mw : N) (o : ropts) (width : N) (tree : rnode) (s : subr),
+       render_tree d mw o width tree = Ok s -> sub_R (teq (root_ct d tree)) s.
+Proof. exact AnnCorollaries.render_tree_chars. Qed.
+Print Assumptions render_tree_chars.
+
+Theorem render_tree_line_chars :
+  forall (d : deco) (mw : N) (o : ropts) (width : N) (tree : rnode) (s : subr) (ls : list rline),
+       render_tree d mw o width tree = Ok s ->
+       sub_into_lines s = Ok ls ->
+       forall l : rline,
+       In l ls ->
+       forall (c : chr) (t : tag), In (c, t) (tl_pairs (rline_into_tagged l)) -> teq (root_ct d tree) c t.
+Proof. exact AnnCorollaries.render_tree_line_chars. Qed.
+Print Assumptions render_tree_line_chars.
+
+Theorem c09_lines_from_read_chars :
+  forall (ist : list (text * text) -> res (list styledecl)) (dr : list node -> res (list ruleset))
+         (cfg : config) (doc : list node) (w : N) (ls : list tline),
+       lines_from_read ist dr cfg doc w = Ok ls ->
+       exists tree : rnode,
+         to_render_tree ist dr cfg doc = Ok tree /\
+         (forall l : tline,
+          In l ls ->
+          forall (c : chr) (t : tag), In (c, t) (tl_pairs l) -> teq (root_ct (c_deco cfg) tree) c t).
+Proof. exact AnnCorollaries.c09_lines_from_read_chars. Qed.
+Print Assumptions c09_lines_from_read_chars.
+
+Theorem own_ann_tbl_ok :
+  forall (d : deco) (i : rinfo), Inherit.own_ann d i = opt_tag (own_ann_tbl d i).
+Proof. exact AnnCorollaries.own_ann_tbl_ok. Qed.
+Print Assumptions own_ann_tbl_ok.
+
+Theorem enclosing_anns_split :
+  forall (d : deco) (p : list (rinfo * cstyle)) (i : rinfo) (sty : cstyle) (q : list (rinfo * cstyle)),
+       Inherit.enclosing_anns d (p ++ (i, sty) :: q) =
+       Inherit.enclosing_anns d p ++
+       style_anns d sty ++ opt_tag (own_ann_tbl d i) ++ Inherit.enclosing_anns d q.
+Proof. exact AnnCorollaries.enclosing_anns_split. Qed.
+Print Assumptions enclosing_anns_split.
+
+Theorem doc_char_tag :
+  forall (d : deco) (tree : rnode) (c : chr) (t : tag),
+       teq (root_ct d tree) c t ->
+       (16 <=? lab c) = true ->
+       prefix_made d ->
+       exists p : list Inherit.pe, Inherit.path_from (Inherit.pe_of tree) p /\ own_at d p c /\ leaf_tag d p t.
+Proof. exact AnnCorollaries.doc_char_tag. Qed.
+Print Assumptions doc_char_tag.
+
+Theorem leaf_char_tag :
+  forall (d : deco) (mw : N) (o : ropts) (width : N) (tree : rnode) (s : subr) 
+         (ls : list rline) (p0 : list Inherit.pe) (c : chr),
+       render_tree d mw o width tree = Ok s ->
+       sub_into_lines s = Ok ls ->
+       prefix_made d ->
+       (16 <=? lab c) = true ->
+       Inherit.path_from (Inherit.pe_of tree) p0 ->
+       own_at d p0 c ->
+       unique_home d tree c ->
+       forall (l : rline) (t : tag), In l ls -> In (c, t) (tl_pairs (rline_into_tagged l)) -> leaf_tag d p0 t.
+Proof. exact AnnCorollaries.leaf_char_tag. Qed.
+Print Assumptions leaf_char_tag.
+
+Theorem leaf_tags_independent :
+  forall (d : deco) (tree : rnode) (p0 : list Inherit.pe) (c : chr) (mw1 : N) 
+         (o1 : ropts) (w1 : N) (s1 : subr) (ls1 : list rline) (mw2 : N) (o2 : ropts) 
+         (w2 : N) (s2 : subr) (ls2 : list rline),
+       render_tree d mw1 o1 w1 tree = Ok s1 ->
+       sub_into_lines s1 = Ok ls1 ->
+       render_tree d mw2 o2 w2 tree = Ok s2 ->
+       sub_into_lines s2 = Ok ls2 ->
+       prefix_made d ->
+       (16 <=? lab c) = true ->
+       Inherit.path_from (Inherit.pe_of tree) p0 ->
+       own_at d p0 c ->
+       unique_home d tree c ->
+       forall (l1 : rline) (t1 : tag) (l2 : rline) (t2 : tag),
+       In l1 ls1 ->
+       In (c, t1) (tl_pairs (rline_into_tagged l1)) ->
+       In l2 ls2 ->
+       In (c, t2) (tl_pairs (rline_into_tagged l2)) ->
+       leaf_tag d p0 t1 /\ leaf_tag d p0 t2 /\ (Inherit.path_pre p0 = false -> tag_eqb t1 t2 = true).
+Proof. exact AnnCorollaries.leaf_tags_independent. Qed.
+Print Assumptions leaf_tags_independent.
+
+Theorem made_char_tag :
+  forall (d : deco) (tree : rnode) (c : chr) (t : tag),
+       teq (root_ct d tree) c t ->
+       own_free d tree c ->
+       c = spacel L_pad /\ t = [] \/
+       lab c = L_foot /\ t = [ADefault] \/
+       (exists (p : list Inherit.pe) (c' : chr),
+          Inherit.path_from (Inherit.pe_of tree) p /\
+          own_at d p c' /\
+          leaf_tag d p t /\
+          (c = strike_chr /\ ws c' = false \/ (c = spacel L_space \/ c = spacel L_pad) /\ ws c' = true)) \/
+       (exists p : list Inherit.pe,
+          Inherit.path_from (Inherit.pe_of tree) p /\
+          struct_char d (fst (Inherit.last_pe p)) c /\ teq_tag t (Inherit.enclosing_anns d p)) \/
+       (exists p : list Inherit.pe,
+          Inherit.path_from (Inherit.pe_of tree) p /\
+          Inherit.is_link (fst (Inherit.last_pe p)) = true /\
+          marker_char c /\
+          (exists t0 : tag,
+             tag_eqb t t0 = true /\
+             Inherit.with_pre d (Inherit.path_pre p)
+               (Inherit.enclosing_anns d (removelast p) ++ style_anns d (snd (Inherit.last_pe p))) t0)).
+Proof. exact AnnCorollaries.made_char_tag. Qed.
+Print Assumptions made_char_tag.
+
+Theorem c09_pieces_concat :
+  forall (ist : list (text * text) -> res (list styledecl)) (dr : list node -> res (list ruleset))
+         (cfg : config) (doc : list node) (w : N),
+       string_from_read ist dr cfg doc w =
+       (do ls <- lines_from_read ist dr cfg doc w;
+        Ok (flat_map (fun l : tline => flat_map fst (tl_tagged_strings l) ++ [newline_chr]) ls)).
+Proof. exact AnnCorollaries.c09_pieces_concat. Qed.
+Print Assumptions c09_pieces_concat.
+
+Theorem rich_link_contributes :
+  forall (p : list (rinfo * cstyle)) (href : text) (cs : list rnode) (sty : cstyle)
+         (q : list (rinfo * cstyle)),
+       Inherit.enclosing_anns rich_deco (p ++ (ILink href cs, sty) :: q) =
+       Inherit.enclosing_anns rich_deco p ++
+       style_anns rich_deco sty ++ [ALink href] ++ Inherit.enclosing_anns rich_deco q.
+Proof. exact AnnCorollaries.rich_link_contributes. Qed.
+Print Assumptions rich_link_contributes.
+
+Theorem rich_image_contributes :
+  forall (p : list (rinfo * cstyle)) (src title : text) (sty : cstyle),
+       Inherit.enclosing_anns rich_deco (p ++ [(IImg src title, sty)]) =
+       Inherit.enclosing_anns rich_deco p ++ style_anns rich_deco sty ++ [AImage src].
+Proof. exact AnnCorollaries.rich_image_contributes. Qed.
+Print Assumptions rich_image_contributes.
+
+Theorem rich_block_contributes :
+  forall (p : list (rinfo * cstyle)) (i : rinfo) (sty : cstyle) (q : list (rinfo * cstyle)),
+       rich_own_ann i = None ->
+       Inherit.enclosing_anns rich_deco (p ++ (i, sty) :: q) =
+       Inherit.enclosing_anns rich_deco p ++ style_anns rich_deco sty ++ Inherit.enclosing_anns rich_deco q.
+Proof. exact AnnCorollaries.rich_block_contributes. Qed.
+Print Assumptions rich_block_contributes.
+
